@@ -157,6 +157,9 @@ def field_values(F, fld, some_mode):
     if m:
         if not some_mode:
             return none()
+        if some_mode == "padded" and m.group(1) == "alloc::string::String":
+            # a text with blanks at both ends: the conversions must hand it through untouched
+            return some(symstr.mk([("lit", " "), ("atom", name, "word"), ("lit", "  ")]))
         if some_mode == "empty":
             # present but empty, where the type can be empty
             if m.group(1) == "alloc::string::String":
@@ -220,8 +223,8 @@ def check_structs(F, C, only=None, rule_prefix="C16", floors=True):
         flds = adt["variants"][0]["fields"]
         nfields += len(flds)
         keys_seen = None
-        for some_mode in (True, False, "empty"):
-            tag = "%s [%s]" % (sty, "optional fields present with an empty value where the type has one" if some_mode == "empty" else "all optional fields present" if some_mode else "all optional fields absent")
+        for some_mode in (True, False, "empty", "padded"):
+            tag = "%s [%s]" % (sty, {"empty": "optional fields present with an empty value where the type has one", "padded": "optional text fields with blanks at both ends", True: "all optional fields present", False: "all optional fields absent"}[some_mode])
             vals = [field_values(F, fld, some_mode) for fld in flds]
             v = ("struct", sty, tuple((fld["name"], x) for fld, x in zip(flds, vals)))
             mod = Mod(F)
